@@ -120,7 +120,10 @@ def contexts(fn, op, bt):
             if isinstance(s.value, ast.Attribute) and s.value.attr == 'operator':
                 env[s.targets[0].id] = op
             else:
-                env[s.targets[0].id] = _eval(s.value, env)
+                try:
+                    env[s.targets[0].id] = _eval(s.value, env)
+                except _Unknown:
+                    env.pop(s.targets[0].id, None)      # a local the precedence computation does not depend on (it raises if it is read later)
         elif isinstance(s, ast.Assign) and isinstance(s.targets[0], ast.Subscript) and is_self_attr(s.targets[0].value) and s.targets[0].value.attr == 'precedence':
             top = _eval(s.value, env)
         elif isinstance(s, ast.Expr) and isinstance(s.value, ast.Call) and isinstance(s.value.func, ast.Attribute):
@@ -132,7 +135,15 @@ def contexts(fn, op, bt):
             elif c.func.attr == 'operator_exit':
                 seen['exit'] = top
         elif isinstance(s, (ast.If, ast.For, ast.While, ast.Try)):
-            raise _Unknown('control flow in visit_BinopNode')
+            # control flow is only modelled when it cannot touch the precedence context of the two operands
+            touches = False
+            for x in ast.walk(s):
+                if isinstance(x, ast.Attribute) and x.attr in ('precedence', 'operator_enter', 'operator_exit', 'operand1'):
+                    touches = True
+                if isinstance(x, ast.Attribute) and x.attr == 'operand2' and isinstance(x.value, ast.Name) and x.value.id == 'node':
+                    touches = True
+            if touches or 'operand2' not in seen:
+                raise _Unknown('control flow in visit_BinopNode')
     return seen
 
 
@@ -278,7 +289,8 @@ def run(ctx):
     rules = _run1(ctx) + [sC25.rule_printer(ctx), sC25.rule_signature(ctx), sC25.rule_qualnames(ctx), sC25.rule_codeobject(ctx), sC25.rule_funcattrs(ctx)]
     # pending finding (FINDING_1..3 of session G11, /tmp/strengthen4/G11): the unmodified printer violates five sub-domains of the round trip
     # (one-element tuples; conditional expressions as operands; operators under a trailer; negative literals; chained comparisons).
-    # Register them once the repairs are in:   rules += [sC25.rule_printer_pending(ctx, cls) for cls in sC25.PENDING_CLASSES]
+    # Repaired in /repo (32d9a9386, 1aa03a47c, 061786c57); the five sub-domains are armed:
+    rules += [sC25.rule_printer_pending(ctx, cls) for cls in sC25.PENDING_CLASSES]
     return rules
 
 TECHNIQUE += ('; finite-domain folding (sa/rules/sC25.ObjFolder) of ExpressionWriter, EmbedSignature and CalculateQualifiedNamesTransform on modelled trees, compared with the checker\'s '
